@@ -3,6 +3,7 @@ package main
 import (
 	"bufio"
 	"bytes"
+	"encoding/binary"
 	"errors"
 	"fmt"
 	"hash/crc32"
@@ -813,6 +814,19 @@ func (e *Exec) doQuery(c *Cmd, sl *slots) string {
 		return bmList(bm)
 	case "dictpair":
 		return e.qDictPair(c, sg)
+	case "header":
+		// what an opened segment says about its own file: the footer fields through the accessors
+		zs, ok := sg.(*zap.Segment)
+		if !ok {
+			return "inmem"
+		}
+		crcok := 0
+		if raw, err := os.ReadFile(zs.Path()); err == nil && len(raw) >= 4 {
+			if binary.BigEndian.Uint32(raw[len(raw)-4:]) == zs.CRC() && bytes.Equal(zs.Data(), raw) {
+				crcok = 1
+			}
+		}
+		return fmt.Sprintf("mode=%d ver=%d docs=%d crcok=%d", zs.ChunkMode(), zs.Version(), zs.NumDocs(), crcok)
 	case "byteswritten":
 		if r, ok := sg.(interface{ BytesWritten() uint64 }); ok {
 			return fmt.Sprint(r.BytesWritten())
